@@ -406,8 +406,10 @@ def scn_multi(rng, sid):
     kinds = KINDS4 if ver == 4 else KINDS5
     W.listener(reply_total=rng.choice([0, 50, 3000]), naccept=5)
     n = rng.choice([2, 3, 4])
+    two_assoc = ver == 5 and rng.random() < 0.2       # two UDP associations on one proxy (relay ports handed out in turn)
     for i in range(n):
         kind = rng.choice(kinds)
+        if two_assoc and i < 2: kind = (3, 1, "ok")
         if kind[0] == 3 and getattr(W, "nassoc_udp", 0) >= 2: kind = (1, 1, "ok")
         add_peers(W, kind)
         start = "top" if rng.random() < 0.5 else W.P.at(rng.choice([0, 2000000, 50000000, 400000000, 900000000]))
@@ -435,9 +437,9 @@ def scn_bind(rng, sid):
     demanded completely. Streams up to 70000 bytes each way (more than one 64 KiB buffer)."""
     ver = rng.choice([4, 5])
     W = base_world(rng, ver, lossy=False, nat=False)
-    third_party(W, BINDPORT + W.nassoc, rng.choice([3000000000, 3500000000]), rng.choice([0, 10, 3000, 70000, 70000]))
+    third_party(W, BINDPORT + W.nassoc, rng.choice([3000000000, 3500000000]), rng.choice([0, 10, 3000, 20000, 70000]))
     session(W, (2, 1, "ok"), cut=rng.choice(["none", "rand"]), close=False, pipelined=False,
-            payload=rng.choice([0, 1, 48, 1475, 5000, 70000, 70000]))
+            payload=rng.choice([0, 1, 48, 1475, 5000, 20000, 70000]))
     finish(W, stop=rng.choice([None, None, "time"]))
     return W.text(sid)
 
@@ -485,15 +487,18 @@ def generate(seed, tier):
         nv, nm, nmu, nd = 500, 350, 180, 50
         out += all_cuts(rng, 4) + all_cuts(rng, 5) + field_mutations(rng, 4) + field_mutations(rng, 5)
     else:
-        nv, nm, nmu, nd = 12000, 9000, 5000, 1500
+        nv, nm, nmu, nd = 12000, 9000, 5000, 800
         for _ in range(4):
             out += all_cuts(rng, 4) + all_cuts(rng, 5) + field_mutations(rng, 4) + field_mutations(rng, 5)
-    for i in range(nv): out.append(scn_valid(rng, "v%d" % i))
-    for i in range(nm): out.append(scn_malformed(rng, "m%d" % i))
-    for i in range(nmu): out.append(scn_multi(rng, "x%d" % i))
-    for i in range(nd): out.append(scn_udp(rng, "u%d" % i))
-    for i in range(nd): out.append(scn_bind(rng, "b%d" % i))
-    return out
+    rest = []
+    for i in range(nv): rest.append(scn_valid(rng, "v%d" % i))
+    for i in range(nm): rest.append(scn_malformed(rng, "m%d" % i))
+    for i in range(nmu): rest.append(scn_multi(rng, "x%d" % i))
+    for i in range(nd): rest.append(scn_udp(rng, "u%d" % i))
+    for i in range(nd): rest.append(scn_bind(rng, "b%d" % i))
+    # families differ a lot in cost (64 KiB streams): mix them so that the batches run in parallel are alike
+    random.Random(seed).shuffle(rest)
+    return out + rest
 
 
 if __name__ == "__main__":
